@@ -71,6 +71,22 @@ class Case:
         fn = sp["fn"]
         if fn in ("Linear", "Conv1d", "Conv2d"):
             return self.run_layer(env, out)
+        if fn == "calculate_gain":
+            # the documented table, including the default slope of leaky_relu and the names it must refuse
+            table = [("linear", None, 1.0), ("conv1d", None, 1.0), ("conv2d", None, 1.0), ("sigmoid", None, 1.0), ("tanh", None, 5.0 / 3),
+                     ("relu", None, math.sqrt(2.0)), ("leaky_relu", None, math.sqrt(2.0 / (1 + 0.01 ** 2))),
+                     ("leaky_relu", 0.2, math.sqrt(2.0 / (1 + 0.2 ** 2))), ("leaky_relu", 1, 1.0), ("leaky_relu", 0, math.sqrt(2.0)),
+                     ("selu", None, 0.75)]
+            for nl, prm, want in table:
+                got = init.calculate_gain(nl, prm) if prm is not None else init.calculate_gain(nl)
+                out.fact("calculate_gain(%s, %s) = %.6g" % (nl, prm, want), abs(float(got) - want) <= 1e-12 * max(1.0, want), "got %r" % (got,))
+            for bad in (("swish", None), ("leaky_relu", True), ("leaky_relu", "0.1")):
+                try:
+                    init.calculate_gain(*bad)
+                    out.fact("calculate_gain%r is refused" % (bad,), False)
+                except ValueError:
+                    out.fact("calculate_gain%r is refused" % (bad,), True)
+            return out
         shape = tuple(sp["shape"])
         dt = np.dtype(sp.get("dtype", "float32"))
         req = sp.get("req", True)
@@ -81,7 +97,23 @@ class Case:
         # float32 arrays combined with them to float64, Python floats never do
         npargs = bool(sp.get("npargs"))
         as_arg = (lambda v: (S(v.n, np.dtype("float64")) if isinstance(v, S) else np.float64(v))) if npargs else (lambda v: v)
-        if fn == "uniform_":
+        if sp.get("defaults"):
+            # every optional argument left to the callee: U(0,1), N(0,1), gain 1, kaiming (a=0, fan_in, leaky_relu)
+            fi, fo = fans(shape) if len(shape) >= 2 else (None, None)
+            r = getattr(init, fn)(t)
+            if fn == "uniform_":
+                kind, lo_doc, hi_doc = "u", 0.0, 1.0
+            elif fn == "normal_":
+                kind, mean_doc, std_doc = "z", 0.0, 1.0
+            elif fn == "xavier_uniform_":
+                b = math.sqrt(6.0 / (fi + fo)); kind, lo_doc, hi_doc = "u", -b, b
+            elif fn == "xavier_normal_":
+                kind, mean_doc, std_doc = "z", 0.0, math.sqrt(2.0 / (fi + fo))
+            elif fn == "kaiming_uniform_":
+                b = math.sqrt(2.0) * math.sqrt(3.0 / fi); kind, lo_doc, hi_doc = "u", -b, b
+            else:
+                kind, mean_doc, std_doc = "z", 0.0, math.sqrt(2.0) / math.sqrt(fi)
+        elif fn == "uniform_":
             a = env.scalar("a", lo=-3, hi=0, kind="data")
             w = env.scalar("w", lo=0.1, hi=3, kind="data")
             r = init.uniform_(t, as_arg(a), as_arg(a + w))
@@ -130,7 +162,7 @@ class Case:
         if kind == "u":
             u = draw(env, "u", 1, shape)
             slack = 1e-9 * (abs(_f(hi_doc, env)) + abs(_f(lo_doc, env)) + 1e-30)
-            if isinstance(lo_doc, (S, float)) and not isinstance(lo_doc, float) or (not env.sym and sp['fn'] == 'uniform_'):
+            if isinstance(lo_doc, (S, float)) and not isinstance(lo_doc, float) or (not env.sym and sp['fn'] == 'uniform_' and not sp.get('defaults')):
                 out.pair("element i = lo_doc + (hi_doc - lo_doc) * u_i", t.data, lo_doc + (hi_doc - lo_doc) * u)
             else:   # documented bound is a float formula: equal up to the last ulp of the constant
                 out.claim("element i <= lo_doc + (hi_doc - lo_doc) * u_i (+1e-9)", t.data, "<=", lo_doc + (hi_doc - lo_doc) * u + slack)
@@ -139,7 +171,7 @@ class Case:
             out.claim("element < documented upper bound", t.data, "<", hi_doc + slack)
         elif kind == "z":
             z = draw(env, "z", 1, shape)
-            if isinstance(std_doc, S) or (not env.sym and sp['fn'] == 'normal_'):
+            if isinstance(std_doc, S) or (not env.sym and sp['fn'] == 'normal_' and not sp.get('defaults')):
                 out.pair("element i = mean_doc + std_doc * z_i", t.data, mean_doc + std_doc * z)
             else:
                 tol = 4e-9 * abs(std_doc)
@@ -199,6 +231,10 @@ def enumerate_specs(tier):
         for s in [(3,)] + shapes:
             for dt in ("float32", "float64"):
                 specs.append({"fn": fn, "shape": list(s), "dtype": dt, "req": dt == "float32"})
+    for fn in ("uniform_", "normal_", "xavier_uniform_", "xavier_normal_", "kaiming_uniform_", "kaiming_normal_"):
+        specs.append({"fn": fn, "shape": [2, 3], "defaults": True})
+        specs.append({"fn": fn, "shape": [2, 1, 2], "defaults": True})
+    specs.append({"fn": "calculate_gain"})
     for fn in ("uniform_", "normal_", "constant_"):
         specs.append({"fn": fn, "shape": [2, 2], "dtype": "float32", "req": True, "npargs": True})
     for fn in ("xavier_uniform_", "xavier_normal_"):
